@@ -154,6 +154,23 @@ pub fn judge(case: &Case, acc: &mut Acc) {
                     break;
                 }
             }
+            // a datagram whose type field has a top bit set is refused as not STUN by the whole parser as
+            // well, whatever its bytes 2..4 say about a length (RTP, RTCP, DTLS and ChannelData packets on a
+            // shared socket carry sequence numbers and lengths of their own there)
+            if !must_accept {
+                for (declared, body) in [(0u16, 0usize), (8, 0), (0, 8), (8, 8), (0xFFFF, 0), (4, 1180), (1180, 1180), (12, 8)] {
+                    let mut d = vec![case.data[0], case.data[1]];
+                    d.extend_from_slice(&declared.to_be_bytes());
+                    d.extend_from_slice(&[0x21, 0x12, 0xA4, 0x42, 1, 2, 3, 4, 5, 6, 7, 8, 9, 10, 11, 12]);
+                    d.extend((0..body).map(|i| (i * 5) as u8));
+                    let got = Message::from_bytes(&d).map(|_| ()).map_err(real::PErr::from);
+                    let got_h = MessageHeader::from_bytes(&d).map(|_| ()).map_err(real::PErr::from);
+                    if got != Err(real::PErr::NotStun) || got_h != Err(real::PErr::NotStun) {
+                        viol!(acc, P, "non-stun-datagram", case, format!("a datagram of {} bytes whose type field has a top bit set (bytes 2..4 = {declared:#06x})", d.len()), "Err(NotStun) from Message::from_bytes and MessageHeader::from_bytes", format!("{got:?} / {got_h:?}"));
+                        break;
+                    }
+                }
+            }
             let via_tryfrom = MessageType::try_from(&case.data[..]).is_ok();
             if via_tryfrom != must_accept {
                 viol!(acc, P, "tryfrom-differs", case, "TryFrom<&[u8]> disagrees with the top-bit rule", format!("{must_accept}"), format!("{via_tryfrom}"));
